@@ -4,6 +4,7 @@ import PokerVerif.Lemmas.TBSeatsRun
 import PokerVerif.Lemmas.TBAgree
 import PokerVerif.Lemmas.TBAgreeRun
 import PokerVerif.Lemmas.TBGidx
+import PokerVerif.Lemmas.TBLeaveList
 import PokerVerif.Props.C07
 import PokerVerif.Props.C01
 /-!
@@ -288,6 +289,49 @@ theorem C03_occupants (cfg : Meta) (b : Blind) (evs : List Event) (hl : DrawsLeg
   refine ⟨hr.1, hr.2, hg, ?_⟩
   rw [ha.seats p.seat hr.1 hr.2]
   exact occ_of_player t.seatMap t.players hb.1.1 i p hp
+
+/-- **C03 — the two seated-in flags are written together.**  `PlayerJoin` sets the table's flag *before* it asks the seat
+manager; a refusal there would leave the two apart.  On a table whose books agree (`Inv`, i.e. in every reachable state —
+`C03_for_every_history`) the seat manager knows every listed player who has a seat, so it cannot refuse: the sit-in of a
+listed, seated, not yet seated-in player answers `ok`, and afterwards the table's entry and the seat manager's occupant of
+his seat both say seated-in. -/
+theorem C03_join_sets_both_flags (s : State) (hi : Inv s) (id i : Nat) (p : Player)
+    (hf : findPlayerIdx s id = some i) (hp : s.players[i]? = some p) (hseat : p.seat ≠ -1) (hout : p.isIn = false) :
+    (joinCore s id).2.1 = .ok ∧
+    ((joinCore s id).1.players[i]?).map (·.isIn) = some true ∧
+    ((joinCore s id).1.sm.seats p.seat).map (·.isIn) = some true := by
+  obtain ⟨hb, ha⟩ := hi
+  -- the player found is the player asked for
+  have hid : p.id = id := by
+    obtain ⟨_, q, hq, hqid⟩ := findIdxAux_some id s.players 0 i hf
+    simp only [Nat.sub_zero] at hq
+    rw [hp] at hq; cases hq; exact hqid
+  -- the seat manager holds him on his seat
+  have hg := hb.1.1.players i p hp
+  have hr := seatMapGet_range s.seatMap p.seat _ hg
+  rw [hb.2] at hr
+  have hsm : SM.idAt s.sm p.seat = some p.id := by
+    rw [ha.seats p.seat hr.1 hr.2]; exact occ_of_player s.seatMap s.players hb.1.1 i p hp
+  have hu := sm_unique s hb ha
+  have hms : (s.sm.maxSeat : Int) = s.cfg.maxSeat := by rw [ha.maxSeat]
+  have hso : SM.seatOf s.sm id = p.seat := by
+    rw [← hid]; exact SM.seatOf_eq s.sm hu p.id p.seat hr.1 (by rw [hms]; exact hr.2) hsm
+  have hhas : SM.hasPlayer s.sm id = true := by
+    rw [SM.hasPlayer_iff]; exact ⟨p.seat, hr.1, by rw [hms]; exact hr.2, by rw [← hid]; exact hsm⟩
+  obtain ⟨sp, hsp⟩ : ∃ sp, s.sm.seats p.seat = some sp := by
+    unfold SM.idAt at hsm
+    cases h : s.sm.seats p.seat with
+    | none => rw [h] at hsm; cases hsm
+    | some sp => exact ⟨sp, rfl⟩
+  have hlt : i < s.players.length := findPlayerIdx_lt s id i hf
+  unfold joinCore
+  simp only [hf, hp, hseat, hout, beq_iff_eq, if_false, Bool.false_eq_true]
+  have hj : SM.join s.sm [id] = ({ s.sm with seats := SM.joinSeats s.sm.seats [SM.seatOf s.sm id] }, .ok) := by
+    unfold SM.join; simp [hhas]
+  rw [hj]
+  refine ⟨rfl, ?_, ?_⟩
+  · simp [modAt, hp]
+  · simp [SM.joinSeats, SM.updAt, hso, hsp]
 
 /-- **C03 — no membership call can crash the table**: in every reachable state `PlayersLeave` of anybody, and
 `PlayerReserve` / `UpdateTablePlayers` arrivals with a legal draw, end in `ok` or in an error — never in an index out of
